@@ -66,6 +66,15 @@ MISSED = {
     "C17_h": "the Wyner-Ziv pipeline (a file of this property) was not exercised -> all 16 combinations of its optional stages and given/generated side information with recording stages",
     "C19_h": "the phase-noise channel was gradient-checked on complex inputs only -> real inputs as well",
     "C20_h": "integer inputs were int32/int64 -> uint8, int8 and int16 too, and syndrome decoders on codes whose redundancy exceeds 8 bits (BCH(15,7), BCH(15,5), Golay)",
+    "C03_i": "the quick tier stopped at BCH mu = 4 -> all BCH codes mu <= 6 in C03's quick tier; where exact d is out of reach, words of weight <= 2 are ruled out through the columns of a reference check matrix",
+    "C07_i": "finiteness of noise samples was never asked for and rare draws were out of reach of 4M-sample units -> 9 x 2^24 Laplacian samples (27 x thorough) must all be finite",
+    "C11_i": "SC-vs-textbook cases with intermediate values above the check-node clip were skipped -> the reference models the documented check-node clip, and long codes (N = 256, 1024) with unordered user masks are added",
+    "C12_i": "erasure symbols were finite numbers -> NaN and inf as erasure symbols (a natural choice for 'erased')",
+    "C15_i": "polar consumers were (8,4) codes without bit reversal -> interleaved N = 16 / 32, N = 32 SC and BP, soft RM(2,4)",
+    "C16_i": "BitErrorRate only with its default threshold -> thresholds 0.0 and 0.25 in the one-shot grid and the histories",
+    "C17_i": "pipeline payloads were lists -> tuple-valued payloads (incl. the empty tuple) through 0..4 stages",
+    "C19_i": "the per-antenna constraint was gradient-checked with uniform_power on [B,A,T] only -> power_budget on [B,A,T] and [B,A,H,W]",
+    "C20_i": "constraint batches had members of similar strength -> a planted weak (1e-3) and strong (1e3) member",
 }
 for tag in sys.argv[1:]:
     pid = tag.split("_")[0]
